@@ -727,6 +727,7 @@ def make_histories(prop, tier, seed, boost=1):
         # small scope: every operation sequence of length 3 over a reduced alphabet (thorough); a sample of length-5 ones (quick)
         hs += [('small_scope', h.text()) for h in (gen.small_scope(seed, depth=3) if tier == 'thorough' else gen.small_scope(seed, depth=5, sample=360))]
     hs += [('extra_kind_quad', h.text()) for h in gen.extra_kind(seed, fams, 150 * boost if tier == 'quick' else 2000)]
+    hs += [('extra_kind_bu16', h.text()) for h in gen.extra_kind(seed + 1, fams, 100 * boost if tier == 'quick' else 1200, kind='bu16')]
     if prop in ZERO_CAP_PROPS:
         hs += [('zero_capacity', h.text()) for h in gen.zero_capacity(seed, fams=[f for f in spec['fams'] if f != 'big' and f != 'deep'])]
     if prop == 'C17':
